@@ -1386,6 +1386,16 @@ def std(a, dim=None, unbiased=True, keepdim=False, correction=None):
     return var(a, dim, unbiased=unbiased, keepdim=keepdim, correction=correction).sqrt()
 
 
+@handles("var_mean")
+def var_mean(a, dim=None, unbiased=True, keepdim=False, correction=None):
+    return var(a, dim, unbiased=unbiased, keepdim=keepdim, correction=correction), mean(a, dim, keepdim=keepdim)
+
+
+@handles("std_mean")
+def std_mean(a, dim=None, unbiased=True, keepdim=False, correction=None):
+    return std(a, dim, unbiased=unbiased, keepdim=keepdim, correction=correction), mean(a, dim, keepdim=keepdim)
+
+
 def _reduce2(f, A, ax, keepdim):
     uf = np.frompyfunc(f, 2, 1)
     if ax is None:
